@@ -231,3 +231,62 @@ Example C17_rotation_same_second_now :
      "records-20200101T01.20210505T100000-1.records.gz"]%string /\
   forallb (fun pr => on_disk final (snd pr)) c17_ws = true.
 Proof. vm_compute. split; reflexivity. Qed.
+
+(* ---------------------------------------------------------------------------------------------------- *)
+(* 5. every writer, every operation.  The writer classes that write to a path, with the model adapter each is an
+   instance of (GENERATED: classified by what the real writer leaves on disk): the stream writer, JSON / CSV / line /
+   text (APlain), Avro, SQLite.  C17_closed_means_durable(_partial) quantify over `adapter`, hence over all of them;
+   the check runs each of them with every compression extension its opener supports. *)
+Theorem C17_generated_writer_table :
+  forallb (fun n => existsb (String.eqb n) (map fst writer_table))
+          ["StreamWriter"; "JsonfileWriter"; "CsvfileWriter"; "LineWriter"; "TextWriter"; "AvroWriter"; "SqliteWriter"]%string
+  = true.
+Proof. reflexivity. Qed.
+Theorem C17_writer_set : forall w k, In (w, k) writer_table -> forall batch h,
+  has_close h = true -> excluded k h = false ->
+  w_open (fst (run writer_shapes batch k (w_init k) h)) = false /\
+  readable (w_file (fst (run writer_shapes batch k (w_init k) h)))
+    = Some (expected k (snd (run writer_shapes batch k (w_init k) h))).
+Proof. intros w k _ batch h. exact (closed_means_durable writer_shapes batch eq_refl k h). Qed.
+
+(* flush(), close(), leaving a with-block (either way) and del never raise, in any state -- in particular a writer may
+   be closed twice, closed inside its with-block, flushed after close; only write() may raise *)
+Theorem C17_close_flush_never_raise : forall batch k st h,
+  Forall outcome_allowed (combine h (outcomes writer_shapes batch k st h)).
+Proof. intros batch k st h. exact (close_flush_never_raise writer_shapes batch eq_refl k h st). Qed.
+
+(* ---------------------------------------------------------------------------------------------------- *)
+(* 6. the stdout target ("-"): sys.stdout is a buffered file object the writer does not close.  stdout_shapes
+   (GENERATED: observed with sys.stdout replaced by a buffered file / a terminal) says for each writer kind whether
+   write() / flush() / close() empty that buffer. *)
+Theorem C17_generated_stdout_shapes :
+  forallb (fun k => o_flush_delivers (stdout_shapes k)) all_okinds = true /\
+  o_write_delivers (stdout_shapes OText) = true /\ o_write_delivers (stdout_shapes OPrinter) = true.
+Proof. repeat split. Qed.
+(* every kind: a writer that is closed by leaving its with-block (normally or by an exception) while it is still open
+   has delivered every record it accepted -- nothing is left in the buffer.  (Second hypothesis: either this kind refuses
+   write() on a closed writer -- all but the CSV writer, whose DictWriter keeps sys.stdout --, or the history has no
+   write() after the close.) *)
+Theorem C17_stdout_exit_delivers : forall kind h, first_close_is_exit h = true ->
+  o_write_after_close (stdout_shapes kind) = false \/ no_write_after_close h = true ->
+  o_pending (fst (o_run writer_shapes (stdout_shapes kind) o_init h)) = [] /\
+  o_delivered (fst (o_run writer_shapes (stdout_shapes kind) o_init h))
+    = snd (o_run writer_shapes (stdout_shapes kind) o_init h).
+Proof. exact (stdout_exit_delivers writer_shapes stdout_shapes eq_refl eq_refl). Qed.
+(* the text writer and the record printer (stream writer on a terminal) flush after every record: whatever the
+   history, nothing is ever left in the buffer *)
+Theorem C17_stdout_text_delivers_at_once : forall h,
+  o_pending (fst (o_run writer_shapes (stdout_shapes OText) o_init h)) = [] /\
+  o_delivered (fst (o_run writer_shapes (stdout_shapes OText) o_init h))
+    = snd (o_run writer_shapes (stdout_shapes OText) o_init h).
+Proof. exact (stdout_autoflush_delivers writer_shapes (stdout_shapes OText) eq_refl eq_refl). Qed.
+Theorem C17_stdout_printer_delivers_at_once : forall h,
+  o_pending (fst (o_run writer_shapes (stdout_shapes OPrinter) o_init h)) = [] /\
+  o_delivered (fst (o_run writer_shapes (stdout_shapes OPrinter) o_init h))
+    = snd (o_run writer_shapes (stdout_shapes OPrinter) o_init h).
+Proof. exact (stdout_autoflush_delivers writer_shapes (stdout_shapes OPrinter) eq_refl eq_refl). Qed.
+(* NOT claimed (and false on the current tree for stream / JSON / CSV / line): a bare close() on the stdout target
+   delivers what is pending -- those writers neither flush nor close stdout in close() *)
+Example C17_stdout_bare_close_leaves_pending :
+  o_pending (fst (o_run writer_shapes (stdout_shapes OLine) o_init [Write (c17_rec 0); Close])) = [c17_rec 0].
+Proof. reflexivity. Qed.
